@@ -477,7 +477,13 @@ func (f *cfake) Bulk(ctx context.Context, in *storeapi.BulkRequest, _ ...grpc.Ca
 	}
 	f.w.mu.Unlock()
 	if o.delayMs > 0 {
-		time.Sleep(time.Duration(o.delayMs) * time.Millisecond)
+		select {
+		case <-time.After(time.Duration(o.delayMs) * time.Millisecond):
+		case <-ctx.Done(): // e.g. the breaker's execution timeout
+		}
+	}
+	if err := ctx.Err(); err != nil {
+		return nil, status.FromContextError(err).Err() // a call on a finished context fails, as a real gRPC call does
 	}
 	if !o.ok {
 		return nil, failErr(f.host, n)
@@ -605,6 +611,114 @@ func runBulks(rng *vh.RNG, hotS, hotR, coldS, coldR, nbulks int, directed, seque
 			mode = "sequential"
 		}
 		desc := fmt.Sprintf("%s c%dx%d h%dx%d bulks=%d directed=%v bulk=%s acked=%v", mode, coldS, coldR, hotS, hotR, nbulks, directed, ids[b], acked[b])
+		cases = append(cases, desc)
+		if acked[b] && (!full("h", hotS, hotR, ids[b]) || !full("c", coldS, coldR, ids[b])) {
+			bad = append(bad, desc)
+		}
+	}
+	return cases, bad
+}
+
+// runBreaker: scenarios in which the circuit breaker itself ends or refuses a shard attempt.  The breaker manager is
+// reset first (circuits are global by name and keep the configuration they were created with).
+//   timeout : execution timeout 50 ms; one replica of the only hot shard needs 250 ms (always for bulk p0, only on its
+//             first call for bulk p1); the caller's context stays alive
+//   throttle: MaxConcurrent = 1; several bulks in flight on one shard with 40 ms store latency, so attempts are rejected
+// A timed-out or rejected attempt is a failed/skipped call: per payload, acknowledged => full replica set accepted it.
+func runBreaker(rng *vh.RNG, kind string, coldS int) (cases []string, bad []string) {
+	circuitbreaker.VerifResetC09()
+	defer circuitbreaker.VerifResetC09()
+	cfg := breakerCfg
+	hotS, hotR, coldR := 1, 2+rng.Intn(2), 1
+	w := &cworld{script: map[string][]cout{}, ncalls: map[string]int{}, okCall: map[string]bool{}}
+	clients := map[string]storeapi.StoreApiClient{}
+	var hostsAll []string
+	for _, t := range []struct {
+		tier string
+		S, R int
+	}{{"c", coldS, coldR}, {"h", hotS, hotR}} {
+		for s := 0; s < t.S; s++ {
+			for r := 0; r < t.R; r++ {
+				h := hostName(t.tier, s, r)
+				clients[h] = &cfake{host: h, w: w}
+				hostsAll = append(hostsAll, h)
+			}
+		}
+	}
+	var ids []string
+	var starts []int
+	sequential := false
+	switch kind {
+	case "timeout":
+		cfg.Timeout = 50 * time.Millisecond
+		sequential = true
+		ids = []string{"p0", "p1", "p2"}
+		starts = []int{0, 0, 0}
+		slow := hostName("h", 0, rng.Intn(hotR))
+		if coldS > 0 && rng.Bool() {
+			slow = hostName("c", 0, 0)
+		}
+		w.script[slow+"/p0"] = []cout{{true, 250}, {true, 250}, {true, 250}, {true, 250}}
+		w.script[slow+"/p1"] = []cout{{true, 250}, {true, 0}, {true, 0}}
+		w.script[slow+"/p2"] = []cout{{true, 0}, {true, 250}, {true, 0}}
+	case "throttle":
+		cfg.MaxConcurrent = 1
+		n := 3 + rng.Intn(3)
+		for b := 0; b < n; b++ {
+			ids = append(ids, fmt.Sprintf("p%d", b))
+			starts = append(starts, 4*b)
+			for _, h := range hostsAll {
+				w.script[h+"/"+ids[b]] = []cout{{true, 40}, {true, 40}, {true, 40}}
+			}
+		}
+	}
+	verifhook.SetShuffle(func(n int) []int {
+		p := make([]int, n)
+		for i := range p {
+			p[i] = i
+		}
+		return p
+	})
+	defer verifhook.SetShuffle(nil)
+	cl := bulk.NewSeqDBClient(&stores.Stores{Shards: hosts("h", hotS, hotR)}, &stores.Stores{Shards: hosts("c", coldS, coldR)}, cfg, clients)
+	acked := make([]bool, len(ids))
+	var wg sync.WaitGroup
+	for b := range ids {
+		wg.Add(1)
+		one := func(b int) {
+			defer wg.Done()
+			time.Sleep(time.Duration(starts[b]) * time.Millisecond)
+			defer func() { recover() }()
+			err := cl.StoreDocuments(context.Background(), 1, []byte("docs-"+ids[b]), []byte(ids[b]))
+			acked[b] = err == nil
+		}
+		if sequential {
+			one(b)
+		} else {
+			go one(b)
+		}
+	}
+	wg.Wait()
+	time.Sleep(60 * time.Millisecond) // let abandoned slow calls end before the next scenario
+	full := func(tier string, S, R int, id string) bool {
+		if S == 0 {
+			return true
+		}
+		for s := 0; s < S; s++ {
+			all := true
+			for r := 0; r < R; r++ {
+				w.mu.Lock()
+				all = all && w.okCall[hostName(tier, s, r)+"/"+id]
+				w.mu.Unlock()
+			}
+			if all {
+				return true
+			}
+		}
+		return false
+	}
+	for b := range ids {
+		desc := fmt.Sprintf("breaker %s c%dx%d h%dx%d bulk=%s acked=%v", kind, coldS, coldR, hotS, hotR, ids[b], acked[b])
 		cases = append(cases, desc)
 		if acked[b] && (!full("h", hotS, hotR, ids[b]) || !full("c", coldS, coldR, ids[b])) {
 			bad = append(bad, desc)
@@ -822,6 +936,20 @@ func main() {
 			}
 		}
 		rep.AddOracle(sorc)
+		borc := vh.NewOracle("replica.breaker", "the circuit breaker itself ends (execution timeout 50 ms vs a 250 ms replica, caller context alive) or refuses (MaxConcurrent = 1, several bulks in flight) a shard attempt; per payload: acknowledged => a full replica set per tier accepted exactly that payload; non-trivial = a bulk that was not acknowledged, or acknowledged after a timed-out/rejected attempt")
+		brng := vh.NewRNG(o.Seed + 123)
+		for i := 0; i < o.Pick(4, 24); i++ {
+			kind := []string{"timeout", "throttle"}[i%2]
+			cases, bad := runBreaker(brng, kind, (i/2)%2)
+			for _, c := range cases {
+				borc.Case(fmt.Sprintf("%d:%s", i, c), true, "kind="+kind)
+			}
+			for _, b := range bad {
+				rep.Violate(vh.Violation{Site: "network/circuitbreaker/circuitbreaker.go:Execute", Class: "ack-after-breaker-ended-or-refused-attempt", What: "acknowledged although no full replica set accepted this payload: " + b, Replay: []string{b}})
+			}
+		}
+		rep.AddOracle(borc)
+		circuitbreaker.VerifResetC09()
 	}
 	rep.Write(o.Out)
 }
